@@ -122,6 +122,28 @@ pub fn c17(args: &Args) {
             }
         }
     }
+    // the same small (f, g) zero-padded into rings of different degree, in consecutive calls, growing and shrinking (state keyed by
+    // the polynomials but not by the ring degree would answer for the wrong ring)
+    {
+        let f0 = vec![5i64, -3, 0, 2];
+        let g0 = vec![2i64, 7, -1, 0];
+        for &n in &[4usize, 8, 4, 16, 8, 64, 4] {
+            let mut f = f0.clone();
+            f.resize(n, 0);
+            let mut g = g0.clone();
+            g.resize(n, 0);
+            let k: Vec<i64> = (0..n).map(|_| rng.gen_range(-40000..=40000)).collect();
+            let f00 = small_vec(&mut rng, n, 6.0);
+            let g00 = small_vec(&mut rng, n, 6.0);
+            let kf = negacyclic_mul(&k, &f);
+            let kg = negacyclic_mul(&k, &g);
+            let cf: Vec<i64> = (0..n).map(|i| f00[i] + kf[i]).collect();
+            let cg: Vec<i64> = (0..n).map(|i| g00[i] + kg[i]).collect();
+            if cf.iter().chain(cg.iter()).all(|x| x.abs() <= lim) {
+                out.emit(babai_event(&f, &g, &cf, &cg, "padded-basis-sequence"));
+            }
+        }
+    }
     // corners: all-zero (F,G) (defect D7 before fix 75957a9); unit f; sparse
     for &n in &[2usize, 4, 64] {
         let f = small_vec(&mut rng, n, 5.0).iter().map(|x| x + 1).collect::<Vec<_>>();
